@@ -29,15 +29,8 @@ pub(crate) async fn build(
     }
     let worker_services = wrap_worker_services(services);
 
-    let worker = ServerWorker {
-        conn_rx,
-        stop_rx,
-        services: worker_services.into_boxed_slice(),
-        counter: WorkerCounter::new(idx, waker_queue, counter.clone()),
-        factories: factories.into_boxed_slice(),
-        state: WorkerState::default(),
-        shutdown_timeout,
-    };
+    // the initializer is generated from the one in `ServerWorker::start` (lib/vlib.py gen_worker_literal)
+    let worker = include!(concat!(env!("ACTIX_NET_VERIF_DIR"), "/worker_literal.rs"));
 
     Ok(BuiltWorker {
         fut: Box::pin(worker),
@@ -61,6 +54,9 @@ pub(crate) fn state_name(w: &ServerWorker) -> &'static str {
         WorkerState::Unavailable => "Unavailable",
         WorkerState::Restarting(_) => "Restarting",
         WorkerState::Shutdown(_) => "Shutdown",
+        // a tree under check may have grown a state the specification does not know
+        #[allow(unreachable_patterns)]
+        _ => "Other",
     }
 }
 
@@ -74,6 +70,8 @@ pub(crate) fn service_status(w: &ServerWorker) -> Vec<&'static str> {
             WorkerServiceStatus::Restarting => "Restarting",
             WorkerServiceStatus::Stopping => "Stopping",
             WorkerServiceStatus::Stopped => "Stopped",
+            #[allow(unreachable_patterns)]
+            _ => "Other",
         })
         .collect()
 }
